@@ -52,7 +52,7 @@ def floors(tier):
     return {'evaluations': 15000, 'distinct_nontrivial': 4000, 'callbacks_checked': 200000,
             'none_placeholders_seen': 2000, 'histkeys:callback': 9, 'trees_with_none_body_or_args': 50,
             'empty_nodelist_arguments_seen': 500, 'nonempty_nodelist_arguments_seen': 500,
-            'catch_all_visitor_runs': 5000, 'argument_lists_counted': 20000, 'histkeys:catch_all_for': 9, 'hist:catch_all_for:visit_specials_node': 200}
+            'catch_all_visitor_runs': 5000, 'argument_lists_counted': 20000, 'visitor_runs_with_none_results': 3000, 'histkeys:catch_all_for': 9, 'hist:catch_all_for:visit_specials_node': 200}
 
 
 def setup(rec):
@@ -60,12 +60,16 @@ def setup(rec):
 
 
 class Recording(N.LatexNodesVisitor):
+    none_for = frozenset()
+
     def __init__(self):
         self.log = []
 
     def _rec(self, name, obj, kw):
         tok = len(self.log) + 1
         self.log.append((name, obj, kw, tok))
+        if name in self.none_for:
+            return None
         return tok
 
     def visit_chars_node(self, node, **kw):
@@ -111,7 +115,7 @@ def partial_visitor(mask):
     if mask not in _PARTIAL:
         def visit(self, node, **kw):
             return self._rec('visit', node, kw)
-        d = {'visit': visit, 'log': None,
+        d = {'visit': visit, 'log': None, 'none_for': frozenset(),
              '_rec': Recording._rec, '__init__': Recording.__init__}
         for i, m in enumerate(_KIND_METHODS):
             if mask >> i & 1:
@@ -122,9 +126,10 @@ def partial_visitor(mask):
 
 class Ref(object):
     """Reference post-order traversal from the documentation."""
-    def __init__(self, rec):
+    def __init__(self, rec, none_for=()):
         self.order = []      # (callback name, object, expected kwargs)
         self.rec = rec
+        self.none_for = set(none_for)   # callbacks of the visitor under test that return None
         self.none_seen = 0
         self.odd = False
 
@@ -180,6 +185,8 @@ class Ref(object):
             else:
                 kw = {}
         self.order.append((name, obj, kw))
+        if name in self.none_for:
+            return None         # a callback may return None; the parent is handed that None at the child's place
         return len(self.order)
 
 
@@ -208,8 +215,11 @@ def kw_equal(want, got):
     return True
 
 
-def check_tree(root, rec, mask=None):
+def check_tree(root, rec, mask=None, none_for=()):
     v = Recording() if mask is None else partial_visitor(mask)
+    if none_for:
+        v.none_for = frozenset(none_for)
+        rec.monitor('visitor_runs_with_none_results')
     if mask is not None:
         rec.monitor('catch_all_visitor_runs')
     try:
@@ -217,7 +227,7 @@ def check_tree(root, rec, mask=None):
     except Exception as e:
         import traceback
         return 'visitor raised %s: %s [%s]' % (type(e).__name__, e, traceback.format_exc().splitlines()[-3].strip()), None
-    r = Ref(rec)
+    r = Ref(rec, none_for)
     r.visit(root)
     got = v.log
     want = r.order
@@ -287,6 +297,10 @@ def check_case(case, rec):
     err, info = check_tree(nl, rec)
     if not err and info and info[0] >= 5 and info[1] >= 3:
         rec.nontrivial(s)
+    if not err and case.get('none_for'):
+        err, _ = check_tree(nl, rec, none_for=case['none_for'])
+        if err:
+            err = 'visitor whose callbacks %s return None: %s' % (sorted(case['none_for']), err)
     if not err and case.get('mask') is not None:
         err, _ = check_tree(nl, rec, mask=case['mask'])
         if err:
@@ -328,7 +342,8 @@ def run_shard(desc, rec):
             if i % 500 == 0:
                 rec.sample(s)
             check_case({'s': s, 'ctx': {'vocab': 'nlargs'}, 'tolerant': bool(i % 2), 'subtrees': i % 7 == 0,
-                        'mask': (0 if i % 4 == 0 else rng.randrange(1 << 10)) if i % 2 else None}, rec)
+                        'mask': (0 if i % 4 == 0 else rng.randrange(1 << 10)) if i % 2 else None,
+                        'none_for': rng.sample(_KIND_METHODS, rng.randint(1, 4)) if i % 3 == 0 else None}, rec)
         return
     if desc['kind'] == 'soup':
         for i, s in enumerate(work.soups(rng, desc['count'])):
@@ -336,7 +351,8 @@ def run_shard(desc, rec):
             if i % 600 == 0:
                 rec.sample(s)
             check_case({'s': s, 'tolerant': True, 'subtrees': i % 10 == 0,
-                        'mask': (0 if i % 4 == 0 else rng.randrange(1 << 10)) if i % 2 == 0 else None}, rec)
+                        'mask': (0 if i % 4 == 0 else rng.randrange(1 << 10)) if i % 2 == 0 else None,
+                        'none_for': rng.sample(_KIND_METHODS, rng.randint(1, 4)) if i % 3 == 0 else None}, rec)
     else:
         src = work.DocSource(rng, desc['vocab'], depth=desc['depth'], cover_base=desc.get('cb', 0))
         for i in range(desc['count']):
@@ -345,7 +361,8 @@ def run_shard(desc, rec):
             if i % 300 == 0:
                 rec.sample(s)
             check_case({'s': s, 'ctx': cdesc, 'tolerant': False, 'subtrees': i % 10 == 0,
-                        'mask': (0 if i % 4 == 0 else rng.randrange(1 << 10)) if i % 2 == 0 else None}, rec)
+                        'mask': (0 if i % 4 == 0 else rng.randrange(1 << 10)) if i % 2 == 0 else None,
+                        'none_for': rng.sample(_KIND_METHODS, rng.randint(1, 4)) if i % 3 == 0 else None}, rec)
 
 
 LEVEL_TEXT = ('Exploration with a reference traversal: a recording visitor (one unique token per callback) is started on '
